@@ -20,7 +20,7 @@ var (
 	ElRawText  = strings.Fields("textarea title xmp plaintext iframe noscript noembed noframes")
 	ElSkip     = strings.Fields("object frameset frame nostyle iframe noscript title")
 	ElForeign  = strings.Fields("svg math mtext mi mo mglyph foreignobject desc annotation-xml path g circle use animate set")
-	ElCustom   = strings.Fields("my-x my-y x-foo x-bar-baz my-")
+	ElCustom   = append(strings.Fields("my-x my-y x-foo x-bar-baz my- x-é my-é1 x-ü-y my-x2 amy-x my-widget my-widget2  x-foo_"), "my-"+strings.Repeat("a", 130)+"9", "x-"+strings.Repeat("b", 140)+"_", "my-x"+strings.Repeat("y", 126), strings.Repeat("a", 200))
 	ElMedia    = strings.Fields("audio video picture canvas")
 	ElDanger   = strings.Fields("script style")
 	// ElAll: every element name of HTML (current and obsolete), MathML/SVG staples included.
